@@ -310,12 +310,20 @@ def extract_body(spec):
             k = il.find(':')
             items = split_top(il[k + 1:], ',')
             assigns = []
+            skips = list(spec.get('init_skip', []))
+            skipped = set()
             for it in items:
                 it = it.strip()
+                hit = [sk for sk in skips if re.search(sk, it)]
+                if hit:
+                    skipped.update(hit)
+                    continue
                 m = re.match(r'^(\w+)\s*[\({](.*)[\)}]$', it, re.S)
                 if not m:
                     raise ExtractionError("%s: cannot parse initialiser %r" % (what, it))
                 assigns.append("%s = %s;" % (m.group(1), m.group(2).strip() or '0'))
+            if skipped != set(skips):
+                raise ExtractionError("%s: init_skip pattern(s) %r matched no base/member initialiser" % (what, sorted(set(skips) - skipped)))
             body = '{ ' + ' '.join(assigns) + ' ' + body[1:]
     elif kind == 'expr':
         # initialiser expression: text after the match up to the terminating ';'
